@@ -28,4 +28,13 @@ pub broadcast axiom fn axiom_pathbuf_key_model()
 pub broadcast axiom fn axiom_string_key_model()
     ensures #[trigger] obeys_key_model::<String>();
 
+#[verifier::external_type_specification]
+#[verifier::external_body]
+pub struct ExTypeId(std::any::TypeId);
+pub uninterp spec fn spec_type_id<T: ?Sized>() -> std::any::TypeId;
+pub assume_specification<T: ?Sized + 'static>[ std::any::TypeId::of::<T> ]() -> (r: std::any::TypeId)
+    ensures r == spec_type_id::<T>();
+pub broadcast axiom fn axiom_typeid_key_model()
+    ensures #[trigger] obeys_key_model::<std::any::TypeId>();
+
 } // verus!
